@@ -50,6 +50,14 @@ def coq_sample(x):
 
 
 def gen_list(rng, i, tier):
+    if i % 8 == 6 and i % 16 == 6:
+        # round totals: the last samples are exactly the running mean of the earlier ones (90, 110, 100, 100, ...)
+        base = float(rng.choice([100, 50, 1000, 2.5]))
+        d = float(rng.choice([1, 2, 10, 0.5]))
+        l = [base - d, base + d] * rng.randint(1, 3) + [base] * rng.randint(1, 8)
+        if rng.random() < 0.5:
+            l = [base - d, base, base + d][:3] if rng.random() < 0.3 else l
+        return l
     kind = i % 8
     if kind == 0:
         n = rng.choice([1, 1, 2, 3])
